@@ -561,4 +561,76 @@ def run (nst : Nat) (c : Cmd) (p : Proc) : Outcome × Proc :=
   | .remove f n v rc na fo su => remove nst f n v rc na fo su p
   | .query _ => (.ok, p)
 
+/-! ## what a dry run says it would do -/
+
+/-- the messages a command prints under `noaction` (l.2634-2650, 2682-2684, 2236, 2813-2815, 3291) -/
+inductive Msg
+  | declaring (s : Nat) (tag : Option Tag)   -- "Declaring directory ... as n v [tag] in <stack>"
+  | assigning (t : Tag)                      -- "Assigning tag "t" to n v"
+  | untag (t : Tag)                          -- "eups undeclare --tag t n"
+  | removing (v : Ver) (s : Nat)             -- "Removing n v from version list for <stack>"
+  | rmrf (d : Dir)                           -- "rm -rf <dir>"
+  deriving DecidableEq, Repr
+
+/-- does `unassignTag` get as far as its dry-run message -/
+def saysUntag (nst : Nat) (self : Flav) (t : Tag) (n : Name) (v : Option Ver) (stack : Option Nat) (m : Spec) : Bool :=
+  match v with
+  | some v =>
+    match m.findIn (stacksOf nst stack) n v self with
+    | none => false
+    | some prod => (m.tagsOf prod).contains t
+  | none =>
+    match stack with
+    | some _ => true
+    | none => (m.findTagged (allStacks nst) n t self).isSome
+
+def sayUndeclareVersion (nst : Nat) (a : UndeclareArgs) (ver : Option Ver) (m : Spec) : List Msg × Option Decl :=
+  match inferVersion nst a ver m with
+  | .error _ => ([], none)
+  | .ok v =>
+    match m.findIn (stacksOf nst a.stack) a.name v a.self with
+    | none => ([], none)
+    | some prod =>
+      if isSetup a m prod.stack v && !a.force then ([], none) else
+      ((match a.tag with
+        | some t => if saysUntag nst a.self t a.name (some v) (some prod.stack) m then [.untag t] else []
+        | none => []) ++ [.removing v prod.stack], some prod)
+
+/-- what the command, run with `noaction`, reports (`Eups(noaction=True)` prints it and changes nothing) -/
+def wouldDo (nst : Nat) (c : Cmd) (p : Proc) : List Msg :=
+  let m := p.mem
+  match c with
+  | .declare a =>
+    match resolveDeclare nst a p with
+    | none => []
+    | some r =>
+      let tag := declareTag nst a m
+      match redeclare (m.findDecl r.target a.name a.ver a.self) r.d r.table tag.isSome a.force with
+      | .refuse => []
+      | rd => (if rd == .write then [.declaring r.target tag] else []) ++
+              (match tag with | some t => [.assigning t] | none => [])
+  | .undeclare a =>
+    match a.tag with
+    | none => (sayUndeclareVersion nst a a.ver m).1
+    | some t =>
+      if a.versionAndTag then
+        let ver : Option Ver := match a.ver with
+          | some v => some v
+          | none =>
+            match findProducts m nst a.self a.name (some t) (stacksOf nst a.stack) with
+            | [d] => some d.ver
+            | _ => none
+        (sayUndeclareVersion nst a ver m).1
+      else if saysUntag nst a.self t a.name a.ver a.stack m then [.untag t] else []
+  | .unassignTag f t n v st _ => if saysUntag nst f t n v st m then [.untag t] else []
+  | .remove f n v rc _ fo su =>
+    match m.findIn (allStacks nst) n v f with
+    | none => []
+    | some prod =>
+      if rc && prod.table == .default && !(p.tableExists prod.dir n) then [] else
+      match sayUndeclareVersion nst ⟨f, n, some v, none, none, false, true, fo, su⟩ (some v) m with
+      | (msgs, some _) => msgs ++ [.rmrf prod.dir]
+      | (msgs, none) => msgs
+  | _ => []
+
 end EupsModel.Db
